@@ -11,6 +11,11 @@ CHECKS = {
          "Every generated history (all histories up to a length bound over a fixed operation alphabet, plus seeded random histories with path spellings and child views) is executed on a fresh memfs and on a tree model written from the statement; result classes and the complete observable tree are compared after every step, every buffer handed in or out is scribbled on and retained listings are re-inspected. Held on the histories executed.",
          "trusts the model in harness/internal/mfs (lexical normalisation, create-or-replace, empty-only remove, deep copy) and its lenient reading of cases the statement leaves open",
          "DESIGN.md §5 C01"),
+ "C02": ("exploration",
+         "three-way lock-step differential monitor (memfs vs diskfs on a real temp directory, tree model deciding the preconditions), host-directory sentinel hashing",
+         "Generated histories (path spellings, child views, four root/child configurations) run step by step on the memory backend, on a disk filespace in a fresh temp directory and on the tree model; where the stated preconditions hold the disk result and whole disk tree must equal the memory backend's after every step; elsewhere both backends must not panic and must change nothing off the addressed paths; files next to and above the disk root are hashed after every step. Held on the histories executed.",
+         "trusts the model's classification of preconditions; OS features (symlinks, permissions) and removing the root are not generated",
+         "DESIGN.md §5 C02"),
  "C17": ("exploration",
          "runtime oracle over bounded-exhaustive + random inputs (reference splitter / render-split round trip)",
          "ReadArguments is run on every byte string up to a length bound over the 9 significant bytes (no panic, bounded reads, exact expected result on the quote-free sub-language) and on scripts rendered from random argument lists by a reference quoting function; InjectArgs mapping compared with an independent expectation. Held on the enumerated/sampled inputs only.",
